@@ -368,3 +368,166 @@ def _auth_replay_plan(ob):
     expected = (not i.get('required')) or (creds is not None and creds in users)
     case = {'driver': 'check', 'args': {'required': bool(i.get('required')), 'users': users, 'creds': creds}}
     return 'auth', case, lambda o: not o.get('panicked') and o.get('accepted') is not None and o.get('accepted') != expected
+
+
+# =========================================================================== h11c_connect: the upstream HTTP proxy's reply is peer input (C05, C06)
+
+def spec_h11c_connect(ck):
+    fn = ck.find(lambda: ck.db.free('h11c_connect'), 'h11c_connect')
+    if fn is None:
+        return
+    ex = ck.engine(loop_bound=4, call_depth=8)
+    ex.benign_havoc = None
+    ex.no_inline = [re.compile(r'HttpRequest|HttpResponse::read_from|frames_from_stream|Context::')]
+    st = State()
+    code = Int(z3.BitVec('upstream_status', 16), 16)
+    feat = z3.BitVec('feature', 64)
+    vn = ex.si.enums['Feature']
+    ex.assume(st, z3.ULT(feat, BV(len(vn), 64)))
+    read_fails = z3.BitVec('upstream_read_fails', 64)
+    ex.assume(st, z3.ULT(read_fails, BV(2, 64)))
+
+    def write_to(ctx):
+        ctx.st.trace.append(('request.write_to',))
+        return Future('sym_result', ['upstream_write'])
+
+    def read_from(ctx):
+        return Future('resp', [])
+
+    @CA.awaiter('resp')
+    def _aw(ctx, fut):
+        resp = Agg('HttpResponse', {0: Bytes.symbolic('ver', 'string'), 1: code, 2: Bytes.symbolic('status', 'string'), 3: Opaque('Vec<(String, String)>', 'headers')})
+        return Agg('Result', {}, read_fails, {0: {0: resp}, 1: {0: Opaque('easy_error::Error', 'read')}}, ctx.ex.si.enums['Result'])
+
+    def header(ctx):
+        # HttpResponse::header(name, default): any header value the upstream chose to send
+        h = Bytes.symbolic('header_value', 'str')
+        ctx.st.env['inputs'] = dict(ctx.st.env.get('inputs', {}), session_id_header=h)
+        return Ref(ctx.st.alloc(h), ())
+
+    def feature(ctx):
+        return Agg('Feature', {}, feat, {}, vn)
+
+    def set_streams(ctx):
+        ctx.st.trace.append(('upstream-established',))
+        return ctx.args[0]
+
+    def extra(ctx):
+        # internal invariant (not peer input): the listener that requested UdpBind stored "udp-bind-source" first
+        return C.mk_option(ctx.ex, Ref(ctx.st.alloc(Bytes.symbolic('extra', 'str')), ()))
+    ex.overrides.append((re.compile(r'Context::extra$'), extra))
+    for rx, f in ((r'HttpRequest::write_to$', write_to), (r'HttpResponse::read_from$', read_from), (r'HttpResponse::header$', header),
+                  (r'Context::feature$', feature), (r'Context::set_server_stream$|Context::set_server_frames$', set_streams)):
+        ex.overrides.append((re.compile(rx), f))
+    ex.inputs = {'upstream_status': code, 'feature': feat}
+    args = [Opaque('IOBufStream', 'server'), Ref(st.alloc(Opaque('RwLock<Context>', 'ctx')), ()), Opaque('SocketAddr', 'l'), Opaque('SocketAddr', 'r'),
+            Ref(st.alloc(Bytes.from_py(b'inline', 'str')), ()), Opaque('FrameFn', 'ff')]
+    outs = run_async(ex, st, fn, args)
+    for o, r in outs:
+        if o.status != 'returned' or r is None:
+            continue
+        ok, _ = _ok_payload(r)
+        est = ('upstream-established',) in o.trace
+        ex.prove(o, 'C06/h11c-connect/upstream-counts-as-established-only-on-status-200', z3.Implies(z3.Or(ok, est), z3.And(code.t == BV(200, 16), read_fails == BV(0, 64))))
+    for f in ex.findings:
+        f.target = 'h11c_connect'
+    ck.plans.append(_h11c_replay_plan)
+    ck.absorb(ex, 'h11c_connect', [o for o, _ in outs])
+    ck.bounds['h11c_connect'] = 'one upstream reply: any status code, any Session-Id header value, any feature; request writer / response reader summarised'
+
+
+def _h11c_replay_plan(ob):
+    if (ob.target or '') != 'h11c_connect' or ob.label.startswith('C0'):
+        return None
+    f = ob.finding
+    sid = (f.inputs.get('session_id_header') or {}).get('hex', '78') if f is not None else '78'
+    try:
+        txt = bytes.fromhex(sid).decode('ascii')
+        if not txt.isprintable() or not txt:
+            txt = 'x'
+    except Exception:
+        txt = 'x'
+    cases = []
+    for t in (txt, 'x', '-1', '99999999999', ''):
+        reply = ('HTTP/1.1 200 OK\r\nSession-Id: %s\r\n\r\n' % t).encode()
+        cases.append({'driver': 'connect', 'args': {'upstream_reply': reply.hex(), 'udp': True}})
+    return 'h11c', cases, lambda o: bool(o.get('panicked'))
+
+
+# =========================================================================== verdict cache (auth.rs Cache::set / Cache::check)
+
+def spec_auth_cache(ck):
+    fset = ck.find(lambda: ck.db.method('Cache', 'set'), 'Cache::set')
+    fchk = ck.find(lambda: ck.db.method('Cache', 'check'), 'Cache::check')
+    if fset is None or fchk is None:
+        return
+    ex = ck.engine(loop_bound=4)
+    ex.benign_havoc = re.compile(BENIGN.pattern + r'|tokio::spawn|task::spawn|JoinHandle|sleep')
+    ex.eq_bound = 6
+    st = State()
+    timeout = z3.BitVec('cache_timeout_secs', 64)
+    u1, p1 = sym_bytes(ex, st, 'cached_user', 6, 'string'), sym_bytes(ex, st, 'cached_pass', 6, 'string')
+    u2, p2 = sym_bytes(ex, st, 'asked_user', 6, 'string'), sym_bytes(ex, st, 'asked_pass', 6, 'string')
+    v1 = z3.Bool('cached_verdict')
+    mapcell = st.alloc(Opaque('HashMap<(String, String), bool>', 'cache'))
+
+    def lock(ctx):
+        return Future('cachelock', [])
+
+    @CA.awaiter('cachelock')
+    def _aw(ctx, fut):
+        return Ref(mapcell, ())
+    ex.overrides.append((re.compile(r'^tokio::sync::Mutex::<HashMap<\(.*String, .*String\), bool>>::lock$'), lock))
+    cf = ck.si.structs.get('Cache', ['timeout', 'data'])
+    cache = Agg('Cache', {cf.index('timeout'): Int(timeout, 64), cf.index('data'): Ref(st.alloc(Ref(mapcell, ())), ())})
+    ccell = st.alloc(cache)
+    ex.host_ascii = [u1, p1, u2, p2]
+    ex.inputs = {'cache_timeout_secs': timeout, 'cached_user': u1, 'cached_pass': p1, 'asked_user': u2, 'asked_pass': p2, 'cached_verdict': v1}
+    k1 = Ref(st.alloc(Agg('tuple', {0: u1, 1: p1})), ())
+    k2 = Ref(st.alloc(Agg('tuple', {0: u2, 1: p2})), ())
+    outs = run_async(ex, st, fset, [Ref(ccell, ()), k1, Bool(v1)])
+    ck.plans.append(_cache_replay_plan)
+    allf = [o for o, _ in outs]
+    for o, r in outs:
+        if o.status != 'returned' or r is None:
+            continue
+        ex.prove(o, 'C07/cache/set-returns-the-verdict-it-was-given', r.t == v1 if isinstance(r, Bool) else False)
+        o2 = o.fork()
+        outs2 = run_async(ex, o2, fchk, [Ref(ccell, ()), k2])
+        allf += [q for q, _ in outs2]
+        for q, r2 in outs2:
+            if q.status != 'returned' or r2 is None or not isinstance(r2, Agg):
+                continue
+            d = BV(r2.discr, 64) if isinstance(r2.discr, int) else r2.discr
+            same = z3.And(C.bytes_equal(ex, q, u1, u2), C.bytes_equal(ex, q, p1, p2))
+            hit = d == BV(1, 64)
+            ex.prove(q, 'C07/cache/verdict-reused-only-for-the-identical-username-and-password', z3.Implies(hit, same))
+            ex.prove(q, 'C07/cache/identical-credentials-hit-the-cache-when-caching-is-on', z3.Implies(z3.And(same, timeout != BV(0, 64)), hit))
+            ex.prove(q, 'C07/cache/timeout-zero-caches-nothing', z3.Implies(timeout == BV(0, 64), z3.Not(hit)))
+            pv = r2.variants.get(1, {}).get(0)
+            if isinstance(pv, Bool):
+                ex.prove(q, 'C07/cache/reused-verdict-is-the-cached-one', z3.Implies(hit, pv.t == v1))
+    for f in ex.findings:
+        f.target = 'auth Cache'
+    ck.absorb(ex, 'auth Cache (set then check)', allf)
+    ck.bounds['auth-cache'] = 'one set followed by one check, user/password strings <= 6 bytes, any timeout; expiry (spawned timer) not encoded'
+
+
+def _cache_replay_plan(ob):
+    if not ob.label.startswith('C07/cache/'):
+        return None
+    f = ob.finding
+    i = f.inputs if f is not None else {}
+    hx = lambda k: i.get(k, {}).get('hex', '')
+    pairs = []
+    try:
+        pairs.append(([bytes.fromhex(hx('cached_user')).decode(), bytes.fromhex(hx('cached_pass')).decode()],
+                      [bytes.fromhex(hx('asked_user')).decode(), bytes.fromhex(hx('asked_pass')).decode()]))
+    except Exception:
+        pass
+    for sep in (':', '|', ' ', '/', ',', '\\x00', ''):
+        pairs.append((['alice', 'x' + sep + 'y'], ['alice' + sep + 'x', 'y']))
+        pairs.append((['ab', 'c'], ['a', 'bc']))
+    pairs.append((['alice', 'pw'], ['alice', 'pw']))
+    cases = [{'driver': 'cache', 'args': {'timeout': i.get('cache_timeout_secs', 300) or 300, 'set': a, 'check': b, 'verdict': True}} for a, b in pairs]
+    return 'auth', cases, lambda o: o.get('hit') is not None and (o.get('hit') != o.get('same'))
